@@ -38,7 +38,7 @@ ASSUMPTIONS = [
     'ln dG/dy_i is compared for available alternatives only (the published convention is G_i = 0 for unavailable ones)',
 ]
 MIN_DISTINCT = {'quick': 250, 'thorough': 2000}
-CASE_TIMEOUT = 120
+CASE_TIMEOUT = 300
 N_RANDOM = {'quick': 300, 'thorough': 3000}
 
 DIRECTED = [
